@@ -16,9 +16,9 @@ from harness.common import Check, chunks, pmap, tmap, NPROC
 TIERS = {
     "quick": {"ASSGN2": (7, 30, 150, 50), "XMLISH": (6, 26, 120, 30), "NULLABLE": (6, 14, 60, 20), "NUM": (6, 16, 80, 20),
               "AMBIG": (5, 12, 40, 8), "CSVISH": (7, 22, 80, 15), "QUOTED": (6, 16, 40, 6), "WIDE": (0, 0, 6, 0)},
-    "thorough": {"ASSGN2": (8, 40, 900, 300), "ASSGN": (7, 30, 500, 150), "XMLISH": (7, 34, 600, 150), "NULLABLE": (8, 20, 200, 80),
-                 "NUM": (7, 20, 300, 80), "AMBIG": (6, 16, 150, 30), "CSVISH": (8, 24, 400, 80), "LEFTREC": (7, 24, 300, 60),
-                 "WIDE": (0, 0, 6, 0)},
+    "thorough": {"ASSGN2": (8, 40, 250, 90), "ASSGN": (7, 30, 120, 40), "XMLISH": (7, 34, 180, 50), "NULLABLE": (8, 20, 120, 40),
+                 "NUM": (7, 20, 150, 40), "AMBIG": (6, 16, 80, 15), "CSVISH": (8, 24, 150, 30), "LEFTREC": (7, 24, 100, 25),
+                 "QUOTED": (6, 16, 60, 10), "WIDE": (0, 0, 6, 0)},
 }
 NUMERIC_NTS = {"NUM": ("<digits>", "<digit>"), "ASSGN": ("<digit>",), "ASSGN2": ("<digit>",)}
 PID = "C03"
